@@ -216,6 +216,9 @@ fn run_fit<T: Sc>(c: &Case, su: &Setup<T>, par: bool, keep_calls: bool) -> Resul
     let problem = prob::build(model, &su.y, su.w.as_ref(), c.eps.map(|e| T::f(e)), su.api, par)?;
     let init_obj = problem.residuals().map(|r| 0.5 * vec_d(&r).norm_squared()).unwrap_or(f64::NAN);
     let before = log.snapshot().len();
+    // every other parallel case is converted to its sequential form BEFORE fitting: the converted problem must carry
+    // a state the sequential code can continue from (C11: conversion preserves the state)
+    let problem = if par && (c.n + c.noise_variant as usize + c.coefs.len()) % 2 == 0 { problem.into_sequential() } else { problem };
     let fit = problem.fit(c.solver.make::<T>());
     let calls: Vec<Call> = log.snapshot().into_iter().skip(before).collect();
     let evals = calls.iter().filter(|c| matches!(c, Call::Eval)).count() as u64;
